@@ -381,6 +381,9 @@ func (an *Analysis) createType(typ types.Type, ctx context) Type {
 
 	if alias, isAlias := typ.(*types.Alias); isAlias {
 		typ = types.Unalias(alias)
+		if v, has := an.Types[typ]; has { // the aliased type has already been analysed under its own name
+			return v
+		}
 	}
 
 	// special case for time.Time, which require the name information
